@@ -357,6 +357,10 @@ func cmdReplay(args []string) {
 		fmt.Printf("replay: the worker process died again: %s\n", deathReason(string(out)))
 		reproduced = true
 	}
+	if strings.HasPrefix(rf.Violation.Class, "process-death") && strings.Contains(string(b), "silent exit") && !sawResult && !strings.Contains(string(out), "worker done") && !strings.Contains(string(out), "harness:") {
+		fmt.Printf("replay: the worker process ended without a report again\n")
+		reproduced = true
+	}
 	if reproduced {
 		fmt.Printf("VIOLATION property=%s replay=%s\n", rf.Property, path)
 		os.Exit(1)
@@ -452,7 +456,12 @@ func cmdCheck(args []string) {
 		chunk int
 		procs int // worker processes at a time (0 = all)
 	}
-	gmp := 2
+	// Serial phases run on one P: the baton lets one task run at a time anyway,
+	// and at teardown (when every parked task of a run is released at once to
+	// unwind) one P keeps those tasks from running truly in parallel, which
+	// would be an uncontrolled and unrecorded schedule. Phases with parallel
+	// windows ask for more (spec.GMP, RaceGMP).
+	gmp := 1
 	if spec.GMP > 0 {
 		gmp = spec.GMP
 	}
@@ -664,9 +673,14 @@ func cmdCheck(args []string) {
 					confirmed++
 					continue
 				}
-				if strings.Contains(reason, "harness:") || reason == "" {
+				if strings.Contains(reason, "harness:") {
 					handled = false
 					break
+				}
+				if reason == "" {
+					// no panic, no fatal error, no watchdog: the process simply ended
+					// (an exit request that reached the real operating system does that)
+					reason = fmt.Sprintf("the process ended without a report (%v)", r.exitErr)
 				}
 				out := filepath.Join(outDir, fmt.Sprintf("confirm-%d.json", idx))
 				cbin := bin
@@ -684,6 +698,16 @@ func cmdCheck(args []string) {
 					break
 				}
 				reason2 := deathReason(string(cout))
+				silent := false
+				if reason2 == "" {
+					if strings.Contains(string(cout), "harness:") {
+						fmt.Printf("INFRA: repeating index %d alone failed inside the harness\n", idx)
+						handled = false
+						break
+					}
+					silent = true
+					reason2 = "silent exit: the process ended without a report, again when the run was repeated alone (an exit request reached the real operating system)"
+				}
 				rp := filepath.Join(replayDir, fmt.Sprintf("%s-%d-%d.json", id, seed, idx))
 				rf := map[string]any{"property": id, "scenario": md.Name, "tier": *tier, "base_seed": seed, "index": idx, "run_seed": rseed, "regenerate": true, "race_build": r.racePhase,
 					"violation": map[string]any{"property": id, "class": "process-death", "message": reason2},
@@ -695,6 +719,9 @@ func cmdCheck(args []string) {
 				if strings.HasPrefix(reason2, "hang:") {
 					cls = "hang/run-did-not-return"
 				}
+				if silent {
+					cls = "process-death/silent-exit"
+				}
 				total.Violations = append(total.Violations, foundViolation{Property: id, Class: cls, Message: "the worker process died: " + reason2, Seed: rseed, Index: idx, Replay: rp})
 			}
 		}
@@ -705,7 +732,10 @@ func cmdCheck(args []string) {
 			for _, c := range crashed {
 				fmt.Println("INFRA:", c)
 			}
-			infra("%d worker(s) died without writing an aggregate", len(crashed))
+			if len(total.Violations) == 0 {
+				infra("%d worker(s) died without writing an aggregate", len(crashed))
+			}
+			// violations found by the other workers are still reported below
 		}
 	}
 	if total.Runs == 0 && len(total.Violations) == 0 {
